@@ -39,6 +39,20 @@ UBSAN_ENV = {"UBSAN_OPTIONS": "suppress_equal_pcs=0:print_summary=0",
              "ASAN_OPTIONS": "detect_leaks=0:handle_sigfpe=0:allow_user_segv_handler=1"}
 
 
+class RetryDriver(Driver):
+    """The driver binary is relinked by concurrent builds of other checks: retry when it is momentarily absent."""
+
+    def ask(self, lines):
+        last = None
+        for attempt in range(8):
+            try:
+                return Driver.ask(self, lines)
+            except (FileNotFoundError, PermissionError, OSError, RuntimeError) as e:
+                last = e
+                time.sleep(3 + 2 * attempt)
+        raise last
+
+
 def promote(t):
     return "i32" if INT_TYPES[t][1] < 32 else t
 
@@ -867,7 +881,7 @@ def parse_sweep(ans):
 
 def explore(prop, tier, seed, rng, wd):
     t0 = time.time()
-    drv = Driver()
+    drv = RetryDriver()
     insts = gen_instances(rng, tier)
     # triangles for transitivity across three units
     tri = gen_triangles(rng, tier, len(insts))
@@ -1356,7 +1370,7 @@ def replay(prop, rec):
         print("replay: record has no integral (instance, op, v1, v2); it names:", rec.get("what"), "/", rec.get("broken"))
         return 1
     wd = workdir(prop + "_replay")
-    drv = Driver()
+    drv = RetryDriver()
     ins = {"id": 0, "r1": r["r1"], "r2": r["r2"], "n1": int(r["n1"]), "d1": int(r["d1"]), "n2": int(r["n2"]), "d2": int(r["d2"]),
            "named1": r.get("named1", False), "named2": r.get("named2", False), "why": "replay"}
     mu = model_units(drv, [ins])
